@@ -154,17 +154,19 @@ var props = map[string]*propSpec{
 	},
 	"C14": {
 		Level: "exploration",
-		Rule: "every run ends with a drain to final quiescence (table sizes probed through the verif accessors) and a full shutdown (every tunnel ended, every context cancelled, all timers fired) after which any goroutine started by the library that is still alive is a leak; " +
+		Rule: "the histories of the families of C01-C12 (message flow, metadata, teardown at every phase, cancellation, bystanders and disturbers, graceful shutdown, flow control, id races and raw id deviations, raw-peer fuzzing, window overruns, call shapes, negotiation matrix and settings variants, registry churn, concurrent control operations); every run ends with a drain to final quiescence (table sizes probed through the verif accessors, registry compared with the open tunnels) and a full shutdown (every tunnel ended, every context cancelled, all timers fired) after which any goroutine started by the library that is still alive is a leak; " +
 			"non-trivial = at least 3 goroutines were alive at once; distinct = distinct schedule digests",
-		Families:       []famPlan{{Family: "teardown", Weight: 2}, {Family: "msgflow", Weight: 2}, {Family: "meta", Weight: 1}},
-		QuickBudget:    50 * time.Second,
-		ThoroughBudget: 15 * time.Minute,
+		Families: []famPlan{{Family: "teardown", Weight: 3}, {Family: "msgflow", Weight: 2}, {Family: "meta", Weight: 1}, {Family: "cancel", Weight: 2}, {Family: "bystander", Weight: 1},
+			{Family: "graceful", Weight: 1}, {Family: "flow", Weight: 1, Batch: 10}, {Family: "idrace", Weight: 1}, {Family: "idraw", Weight: 1}, {Family: "rawfuzz", Weight: 2}, {Family: "overrun", Weight: 1},
+			{Family: "shapes", Weight: 1}, {Family: "matrix", Weight: 1}, {Family: "settings", Weight: 1}, {Family: "registry", Weight: 1, Batch: 20}, {Family: "concurrent", Weight: 1}},
+		QuickBudget:    55 * time.Second,
+		ThoroughBudget: 20 * time.Minute,
 	},
 	"C11": {
 		Level: "exploration",
-		Rule: "family matrix: the 17 cells of {client: enabled, disabled, legacy} x {server: enabled, disabled, legacy} x {forward, reverse} that involve this library (legacy ends are revision-zero raw peers that never advertise negotiation) are drawn uniformly, each with all four RPC shapes under a random schedule and carrier capacity; family settings: a raw tunnel server presents one of 20 settings variants (revision lists incl. empty / unknown / duplicate / reordered, windows 0 / 1 / 2^32-1, wrong stream id, a different or empty first frame, end of stream, silence with a deadline) to a client with flow control enabled or disabled, forward and reverse, then serves an RPC; the revision rules of the wire monitor run on every frame of every family; " +
+		Rule: "family matrix: the 17 cells of {client: enabled, disabled, legacy} x {server: enabled, disabled, legacy} x {forward, reverse} that involve this library (legacy ends are revision-zero raw peers that never advertise negotiation) are drawn uniformly, each with all four RPC shapes under a random schedule and carrier capacity; family settings: a raw tunnel server presents one of 20 settings variants (revision lists incl. empty / unknown / duplicate / reordered, windows 0 / 1 / 2^32-1, wrong stream id, a different or empty first frame, end of stream, silence with a deadline) to a client with flow control enabled or disabled, forward and reverse, then serves an RPC; the revision rules of the wire monitor run on every frame of every family, including the teardown family, where tunnels end (and opening contexts expire) at every point of the settings exchange; " +
 			"non-trivial = the cell / variant ran to its end; distinct = distinct schedule digests; the configuration matrix and the variant list are finite and every element is drawn many times per run of the check (counts in runs_by_config), schedules are sampled",
-		Families:       []famPlan{{Family: "matrix", Weight: 2}, {Family: "settings", Weight: 2}, {Family: "msgflow", Weight: 1}},
+		Families:       []famPlan{{Family: "matrix", Weight: 2}, {Family: "settings", Weight: 2}, {Family: "msgflow", Weight: 1}, {Family: "teardown", Weight: 1}},
 		QuickBudget:    45 * time.Second,
 		ThoroughBudget: 12 * time.Minute,
 	},
@@ -179,7 +181,8 @@ var props = map[string]*propSpec{
 	"C13": {
 		Level:          "exploration",
 		Rule:           "every frame of every run is fed to the protocol monitor (appendix A of DESIGN.md); non-trivial = the run carried at least 20 frames; distinct = distinct schedule digests",
-		Families:       []famPlan{{Family: "msgflow", Weight: 2}, {Family: "teardown", Weight: 1}, {Family: "meta", Weight: 1}},
+		Families: []famPlan{{Family: "msgflow", Weight: 3}, {Family: "teardown", Weight: 2}, {Family: "meta", Weight: 2}, {Family: "cancel", Weight: 2}, {Family: "graceful", Weight: 1}, {Family: "flow", Weight: 1, Batch: 10},
+			{Family: "idrace", Weight: 1}, {Family: "matrix", Weight: 1}, {Family: "concurrent", Weight: 1}, {Family: "bystander", Weight: 1}, {Family: "shapes", Weight: 1}, {Family: "rawfuzz", Weight: 1}},
 		QuickBudget:    50 * time.Second,
 		ThoroughBudget: 15 * time.Minute,
 	},
